@@ -72,6 +72,30 @@ var helperEntry = map[string][]helperReq{
 	"iscp.streamState.CurrentWithoutLock": {{"iscp.streamState.RWMutex", modeR}},
 	"iscp.streamState.IsWithoutLock":    {{"iscp.streamState.RWMutex", modeR}},
 	"iscp.streamState.SwapWithoutLock":  {{"iscp.streamState.RWMutex", modeW}},
+	"reconnect.Transport.reconnect":     {{"reconnect.Transport.mu", modeW}},
+}
+
+// hbExempt: access sites that are ordered by happens-before rather than by a lock; each entry is justified.
+// key: function-name prefix + "|" + field
+var hbExempt = map[string]string{
+	"iscp.(Upstream).run$|iscp.Upstream.idAlias":              "idAlias is written only by resume(), which the supervisor goroutine runs strictly between two run() calls; this reader is an errgroup goroutine of run(), joined by eg.Wait() before resume can start",
+	"iscp.(Upstream).ackOrDone$|iscp.Upstream.ackCh":          "ackCh is written only by resume() between two run() calls; this goroutine is started by readAckLoop (inside run) and readAckLoop returns only after it closed its output channel",
+	"iscp.(Upstream).readAckLoop|iscp.Upstream.aliasCh":       "aliasCh/resCh are replaced only by resume() between two run() calls; readAckLoop is an errgroup goroutine of run()",
+	"iscp.(Upstream).readAckLoop|iscp.Upstream.resCh":         "see aliasCh",
+	"iscp.(Upstream).readResultLoop|iscp.Upstream.resCh":      "evaluated once when the goroutine starts (inside run, after resume wrote it); the loop then ranges over that channel value",
+	"websocket.New|websocket.Transport.writeWindowBuf":        "constructor: the transport is not yet shared",
+	"websocket.New|websocket.Transport.readWindowBuf":         "constructor: the transport is not yet shared",
+	"multi.(LastUsedPoller).Get|multi.Transport.currentTransportID": "the only configuration that calls Get is polling mode with this poller; transportIDLoop then only ever receives the current id or the empty id and never writes currentTransportID, so there is no concurrent writer (race workload `multi` confirms)",
+}
+
+func exemptReason(fn, field string) (string, bool) {
+	for k, v := range hbExempt {
+		parts := strings.SplitN(k, "|", 2)
+		if parts[1] == field && strings.HasPrefix(fn, parts[0]) {
+			return v, true
+		}
+	}
+	return "", false
 }
 
 type helperReq struct {
@@ -178,6 +202,10 @@ func (c *lockCtx) accessOps(n ast.Node) []lkOp {
 		case *ast.SelectorExpr:
 			if key, ok := c.fieldKey(y); ok {
 				if g, ok := c.guards[key]; ok {
+					if _, ex := exemptReason(c.curFn, key); ex {
+						c.exempted = append(c.exempted, c.curFn+" | "+key)
+						return true
+					}
 					pp := c.fset.Position(y.Pos())
 					ops = append(ops, lkOp{kind: "acc", loc: c.ltok(key), write: written[y], lock: c.tok(g.lockKey),
 						pos: fmt.Sprintf("%s:%d", strings.TrimPrefix(pp.Filename, *repo+"/"), pp.Line), text: nodeString(c.fset, y)})
